@@ -49,6 +49,8 @@ THEOREMS = [
     "Typedpy.C09.fixed_description_nul_module",
     "Typedpy.C09.always_compiles_statement_false",
     "Typedpy.C09.accepted_example",
+    "Typedpy.C09.field_code_nesting",
+    "Typedpy.C09.emitted_module_nesting",
     "Typedpy.C09.counterexample_extra_key_dropped",
     "Typedpy.C09.counterexample_unique_bool_vs_int",
     "Typedpy.C09.counterexample_cyclic_refs",
